@@ -69,6 +69,8 @@ func init() {
 		Dirs: []string{"root", "internal/sort"},
 		Jobs: func(tier string) []Job {
 			var jobs []Job
+			// enum keys at the full cardinality of the value set (255 declared values + null): null placement
+			jobs = append(jobs, Job{Harness: "VX_C17_order", Params: P("K", "255", "const", "254", "cmp", "<")}, Job{Harness: "VX_C17_order", Params: P("K", "254", "const", "3", "cmp", ">=")})
 			allFlags := []string{"--", "r-", "-n", "rn"}
 			n, pp := 3, 4
 			if tier == "thorough" {
@@ -219,6 +221,14 @@ func c04jobs(harness string, tier string) []Job {
 			if harness == "VX_C05_distinct" && (ts == "int" || ts == "string,int" || ts == "float" || ts == "string") {
 				q := P("types", ts, "n", itoa(nn), "null", nl, "ix", ixm, "agg", "none", "cols", "all", "slots", "017")
 				jobs = append(jobs, Job{Harness: harness, Params: q, MaxPaths: 200000})
+			}
+		}
+	}
+	if harness == "VX_C05_distinct" {
+		// an earlier Distinct/GroupBy with the opposite Null setting on the same columns
+		for _, ts := range []string{"string", "enum", "int"} {
+			for _, nl := range []string{"true", "false"} {
+				jobs = append(jobs, Job{Harness: harness, Params: P("types", ts, "n", "3", "null", nl, "ix", "rev", "agg", "none", "cols", "given", "slots", "0", "warm", "1"), MaxPaths: 200000})
 			}
 		}
 	}
